@@ -3,8 +3,9 @@
 //! Clause (b): the hidden state is the position of the document PRNG stream. Beacons
 //! `randint(0, 999999)` are placed at every site of the element pipeline that evaluates
 //! attributes (geometry, text, data/class/comment attributes, var, loop count, if test,
-//! group attributes, reuse attributes, template bodies); a reference stream (same
-//! rand_pcg) stepped once per occurrence per rendered element predicts every value.
+//! group attributes, reuse attributes, template bodies); an occurrence-counting interpreter
+//! gives the ordered draws, svgdx's own output for a flat calibration document gives their
+//! values (no PRNG algorithm is assumed; Pcg32 is stepped alongside as a probe).
 //! Clause (c): malformed expressions at those sites - alone and next to elements that
 //! need a retry - must fail the transform.
 //! Clause (a) (arithmetic semantics of a pure evaluator) is NOT decided here.
@@ -955,13 +956,13 @@ impl Engine for C14 {
     }
 
     fn rule(&self) -> &'static str {
-        "two families. once: a forward-reference-free document with randint(0,999999) beacons / random() at 14 attribute sites, in loops (fixed or random count), ifs (fixed or random test), groups, reuse attributes and template bodies, API seed and <config seed> reseeding; every printed value must equal the reference PRNG stream stepped once per occurrence per rendered element, and the hook's draw counter must equal the model's. malformed: 8 malformed-expression kinds x 16 sites x 5 neighbourhoods (alone / next to / inside / after elements needing a retry) must fail. distinct by document; non-trivial = >= 2 draws (once) or a retry happened (malformed)"
+        "two families. once: a forward-reference-free document with randint(0,999999) beacons / random() at 14 attribute sites, in loops (fixed or random count), ifs (fixed or random test), groups, reuse attributes and template bodies, API seed and <config seed> reseeding; every printed value must equal what svgdx prints for the same ordered draws in a flat calibration document (one plain element per occurrence per rendering; no PRNG algorithm assumed); on that stream: same values under any non-seed configuration, randint(n,n) advances, <config seed=S> restarts as a document with seed S. malformed: 8 malformed-expression kinds x 16 sites x 5 neighbourhoods (alone / next to / inside / after elements needing a retry) must fail. distinct by document; non-trivial = >= 2 draws (once) or a retry happened (malformed)"
     }
     fn components_real(&self) -> Vec<&'static str> {
-        vec!["svgdx library (transform_stream): element pipeline, expression evaluator, document PRNG, retry work-list", "rand_pcg (same crate as the reference stream)"]
+        vec!["svgdx library (transform_stream): element pipeline, expression evaluator, document PRNG, retry work-list", "rand_pcg (diagnostic probe only)"]
     }
     fn components_stub(&self) -> Vec<&'static str> {
-        vec!["none; oracle = reference Pcg32 stream + occurrence-counting interpreter"]
+        vec!["none; oracle = occurrence-counting interpreter + svgdx's own flat calibration document"]
     }
     fn assumptions(&self) -> Vec<&'static str> {
         vec![
